@@ -232,6 +232,13 @@ def run(ctx):
             r4.check(arg_ok[0], "%s:all-pools-only-without-argument" % nm, "admin %s acts on every pool only when the command is one word long" % tag,
                      "admin %s treats a command of %s words as `no argument` and acts on every pool: `%s db, user` (three words, the spelling of the usage text) %s" % (tag, [n for n in arg_ok[1] if n != 1], tag,
                      "pauses all pools" if nm == "pause" else "resumes all pools - clients of the other paused pools start transactions on servers that are to be quiet"))
+        # the command takes effect whether or not the admin is still there to read the answer: pause()/resume() are not behind a fallible write to the admin
+        # (a RESUME sent by a script that hangs up at once - `timeout psql -c RESUME` - must still release the held clients)
+        wr_ = [c for c in b.calls("pgcat::messages::write_all_half", "pgcat::messages::write_all", "pgcat::messages::error_response", "pgcat::messages::write_all_flush")]
+        behind = [c for c in cs if any(w.target is not None and c.block in b.reach([w.target]) for w in wr_)]
+        r4.check(not behind, "%s:effect-before-the-reply" % nm, "%s() is called before anything is written to the admin connection" % nm,
+                 "%s() is called after a write to the admin connection: when that write fails (the admin has hung up) the `?` returns first - RESUME was received and every pool stays paused, every held client blocked" % nm,
+                 behind[0].where() if behind else "")
         # replies end with Z
         putz = [c for c in b.calls("re:put_u8$") if const_int(c.args[1]) == 90]
         wr = b.calls("pgcat::messages::write_all_half")
